@@ -733,32 +733,56 @@ theorem debian_image_joins_after_history (t : RelTable) (evs : List HistEvent) (
   exact ⟨_, st, debian_all_releases m c w hid hn hne hv hr, h1, h2⟩
 
 /-- Tie A: `alpine.Factory.UpdaterSet` assigns its state (`cur`, `etag`,
-    `stamp`) only after the walk over the release directories has finished. -/
+    `stamp`) only after the walk over the release directories has finished;
+    every `default:` arm of the walk's status switches (an answer that is
+    neither 200 nor 404) sets `incomplete`, and `if incomplete { return … }`
+    stands between the walk and the assignments. -/
 theorem alpine_state_written_after_walk :
     JoinState.alpine.stateWrites = [[99, 117, 114], [101, 116, 97, 103], [115, 116, 97, 109, 112]] ∧
-    JoinState.alpine.stateWritesAfterWalk = true := by
+    JoinState.alpine.stateWritesAfterWalk = true ∧
+    JoinState.alpine.unexpectedStatusMarksIncomplete = true ∧ JoinState.alpine.incompleteReturnsBeforeStateWrites = true := by
   decide +kernel
 
-/-- The Alpine factory: the set a successful `UpdaterSet` hands out is the
-    factory's current set, and the state (stamp and set) changes only by a
-    completed walk under a new stamp — a failed `last-update` request, a 304,
-    an unchanged stamp, or a walk that hit a request error leave the previous
-    enumeration in place. -/
+/-- The Alpine factory (after fix 9c7e43c2): the state (stamp, etag, set)
+    changes only by a COMPLETE walk under a new stamp — a failed `last-update`
+    request, a 304, an unchanged stamp, a walk that hit a request error, and a
+    walk in which some answer was neither 200 nor 404 leave the previous
+    enumeration in place; and the set a successful `UpdaterSet` hands out is
+    the factory's current set, or the result of such an incomplete walk. -/
 theorem alpine_factory_keeps_last_completed_walk (s : AlpState) (e : AlpEvent) :
-    (∀ ns, (alpStep s e).2 = .set ns → (alpStep s e).1.cur = ns) ∧
-    ((alpStep s e).1 ≠ s → ∃ st etag found, e = .stampIs st etag (some found) ∧ s.stamp ≠ some st ∧
+    (∀ ns, (alpStep s e).2 = .set ns →
+      (alpStep s e).1.cur = ns ∨ (∃ st etag, e = .stampIs st etag (some (ns, false)) ∧ (alpStep s e).1 = s)) ∧
+    ((alpStep s e).1 ≠ s → ∃ st etag found, e = .stampIs st etag (some (found, true)) ∧ s.stamp ≠ some st ∧
         (alpStep s e).1 = { stamp := some st, etag := etag, cur := found }) :=
   ⟨fun ns h => alpStep_set_is_cur s e ns h, alpStep_cur_change s e⟩
 
+/-- A release left out because its directory answered 5xx does not stay out:
+    the incomplete walk is not cached, so the next call — same `last-update`
+    stamp, the mirror answering again — walks again and finds it.  (Before the
+    fix the first set was stored with the stamp and handed out until the stamp
+    changed.) -/
+theorem alpine_skipped_release_comes_back (s : AlpState) (st : Nat) (etag : Bytes) (part full : List Bytes)
+    (hnew : alpKeeps s st etag = false) :
+    let s1 := (alpStep s (.stampIs st etag (some (part, false)))).1
+    s1 = s ∧ (alpStep s1 (.stampIs st etag (some (full, true)))).2 = .set full := by
+  simp [alpStep, hnew]
+
 /-- A walk over a mirror that serves `v3.3/ … v3.<k>/` contiguously (and
     nothing else) finds exactly these releases: instance for k = 5 with
-    `main.json` everywhere and `community.json` from 3.4 on. -/
+    `main.json` everywhere and `community.json` from 3.4 on; with a 5xx on
+    `v3.4/` the release is left out and the walk is marked incomplete. -/
 example : alpWalk (fun maj min => if maj == 3 && 3 ≤ min && min ≤ 5 then .ok else .notFound)
     (fun rel repo => if repo == [109, 97, 105, 110] || (repo == [99, 111, 109, 109, 117, 110, 105, 116, 121] && rel != [118, 51, 46, 51] && rel != [101, 100, 103, 101]) then .ok else .notFound) 16
-    = some [alpUpdaterName [109, 97, 105, 110] [118, 51, 46, 51],
+    = some ([alpUpdaterName [109, 97, 105, 110] [118, 51, 46, 51],
             alpUpdaterName [109, 97, 105, 110] [118, 51, 46, 52], alpUpdaterName [99, 111, 109, 109, 117, 110, 105, 116, 121] [118, 51, 46, 52],
             alpUpdaterName [109, 97, 105, 110] [118, 51, 46, 53], alpUpdaterName [99, 111, 109, 109, 117, 110, 105, 116, 121] [118, 51, 46, 53],
-            alpUpdaterName [109, 97, 105, 110] [101, 100, 103, 101]] := by
+            alpUpdaterName [109, 97, 105, 110] [101, 100, 103, 101]], true) := by
+  decide +kernel
+
+example : alpWalk (fun maj min => if maj == 3 && min == 4 then .other else if maj == 3 && 3 ≤ min && min ≤ 5 then .ok else .notFound)
+    (fun _ repo => if repo == [109, 97, 105, 110] then .ok else .notFound) 16
+    = some ([alpUpdaterName [109, 97, 105, 110] [118, 51, 46, 51], alpUpdaterName [109, 97, 105, 110] [118, 51, 46, 53],
+            alpUpdaterName [109, 97, 105, 110] [101, 100, 103, 101]], false) := by
   decide +kernel
 
 /-! ## structure of the sources the join relies on -/
